@@ -45,6 +45,7 @@ Next ==
           /\ replied' = {} /\ finished' = {} /\ hsdone' = 0 /\ viol' = {}
      ELSE IF Line.ev = "end"
      THEN /\ LET v == viol \cup (IF Line.leftover # 0 THEN {"PartialFrame"} ELSE {})
+                            \cup (IF Line.closed THEN {"PluginStoppedReading"} ELSE {})
                             \cup (IF finished \subseteq replied THEN {} ELSE {"MissingReply"})
                             \cup (IF Complete(pos) = Len(ends) /\ pos = ends[Len(ends)] => ninv = Cardinality(Dispatching)
                                   THEN {} ELSE {"MissingDispatch"})
